@@ -163,6 +163,27 @@ def oracle(blocks):
             'height': len(blocks) - 1, 'tip': blocks[-1]['hash'] if blocks else bytes(32)}
 
 
+def affected_hashXs(blocks, depth):
+    '''script hashes paid to or spent from by the last `depth` blocks'''
+    utxos, out = {}, set()
+    first = len(blocks) - depth
+    for b in blocks:
+        for tx in b['txs']:
+            for ph, pi in tx['ins']:
+                if ph == bytes(32) and pi == 0xffffffff:
+                    continue
+                hx = utxos.pop((ph, pi))
+                if b['height'] >= first:
+                    out.add(hx)
+            for i, (v, s) in enumerate(tx['outs']):
+                if unspendable(b['height'], s):
+                    continue
+                utxos[(tx['hash'], i)] = hashX_of(s)
+                if b['height'] >= first:
+                    out.add(hashX_of(s))
+    return out
+
+
 class Crash(Exception):
     pass
 
@@ -318,7 +339,11 @@ def index_forward(w, blocks, rnd, sched=None, upto=None):
     '''advance blocks with a random flush schedule; returns the schedule used'''
     used = []
     for b in blocks[w.bp.state.height + 1: upto]:
+        w.bp.touched = set()
         assert w.advance(b), 'block does not connect'
+        missing = affected_hashXs(blocks[:b['height'] + 1], 1) - set(w.bp.touched)
+        assert not missing, (f'block {b["height"]} changed the history of {len(missing)} script hash(es) that are not in the '
+                             f'touched set: their subscribers are never notified')
         r = rnd.random() if sched is None else sched.pop(0)
         used.append(r)
         if r < 0.25:
@@ -445,8 +470,18 @@ def scenario_reorg(seed):
         for r in range(rnd.randrange(1, 4)):
             depth = rnd.randrange(1, min(4, len(blocks) // 2))
             w.flush(True)
+            # the script hashes whose history or UTXOs the undone blocks changed: they must all be reported as touched
+            # (the server clears the set after every notification, so it is cleared here) - this is what lets subscribers
+            # of a script that only SPENT in an orphaned block learn that its history shrank (C07)
+            w.bp.touched = set()
+            affected = affected_hashXs(blocks, depth)
             for b in reversed(blocks[-depth:]):
                 w.backup(b)
+            missing = affected - set(w.bp.touched)
+            if missing:
+                desc['reorgs'].append({'depth': depth})
+                return desc, (f'undoing {depth} block(s) changed the history of {len(missing)} script hash(es) that are not in the '
+                              f'touched set (e.g. {sorted(missing)[0].hex()}): their subscribers are never notified')
             blocks = blocks[:-depth]
             forced = rnd.random() < 0.3
             desc['reorgs'].append({'depth': depth, 'forced_same_chain': forced})
